@@ -6,6 +6,7 @@ use crate::tx::script_context::sort_reward_accounts;
 use itertools::Itertools;
 use pallas_addresses::{Address, ScriptHash, ShelleyPaymentPart, StakePayload};
 use pallas_codec::utils::Nullable;
+use pallas_traverse::ComputeHash;
 use pallas_primitives::conway::{
     Certificate, GovAction, MintedTx, PolicyId, RedeemerTag, Redeemers, RedeemersKey,
     RewardAccount, StakeCredential, TransactionOutput, Voter,
@@ -24,6 +25,7 @@ pub fn eval_phase_one(
     validate_missing_scripts(
         &scripts_needed,
         lookup_table.iter_script_hashes().copied().collect(),
+        witness_script_hashes(tx),
     )?;
 
     has_exact_set_of_redeemers(tx, &scripts_needed, lookup_table)?;
@@ -31,9 +33,34 @@ pub fn eval_phase_one(
     Ok(())
 }
 
+/// Hashes of the Plutus scripts carried by the transaction's own witness set.
+fn witness_script_hashes(tx: &MintedTx) -> Vec<ScriptHash> {
+    let witnesses = &tx.transaction_witness_set;
+
+    let mut hashes = Vec::new();
+
+    if let Some(scripts) = &witnesses.plutus_v1_script {
+        hashes.extend(scripts.iter().map(|script| script.compute_hash()));
+    }
+
+    if let Some(scripts) = &witnesses.plutus_v2_script {
+        hashes.extend(scripts.iter().map(|script| script.compute_hash()));
+    }
+
+    if let Some(scripts) = &witnesses.plutus_v3_script {
+        hashes.extend(scripts.iter().map(|script| script.compute_hash()));
+    }
+
+    hashes
+}
+
+/// A needed script may come from the witness set or from a reference script; only a
+/// script of the witness set can be extraneous (a reference script nobody uses is not
+/// part of the transaction).
 pub fn validate_missing_scripts(
     needed: &ScriptsNeeded,
     received_hashes: Vec<ScriptHash>,
+    witness_hashes: Vec<ScriptHash>,
 ) -> Result<(), Error> {
     let needed_hashes = needed.iter().map(|x| x.1).collect::<Vec<ScriptHash>>();
 
@@ -44,7 +71,7 @@ pub fn validate_missing_scripts(
         .map(|x| x.to_string())
         .collect();
 
-    let extra: Vec<_> = received_hashes
+    let extra: Vec<_> = witness_hashes
         .into_iter()
         .filter(|x| !needed_hashes.contains(x))
         .map(|x| x.to_string())
